@@ -23,7 +23,8 @@ def gen_ops(rnd):
     fam = rnd.choice(ID_FAMILIES)
     n = rnd.randint(2, 6)
     ops, used = [], set()
-    paths = ["/users", "/users/{id}", "/pets", "/pets/{petId}/toys", "/a/b"]
+    # (mixed literal / parameter segments such as {id}.csv are NOT lookups "by id": they keep their text)
+    paths = ["/users", "/users/{id}", "/pets", "/pets/{petId}/toys", "/a/b", "/users/{id}.csv", "/pets/x{petId}y/toys", "/users/{id}:{rev}"]
     while len(ops) < n:
         wh = rnd.random() < 0.15
         path = rnd.choice(["newPet", "ping"]) if wh else rnd.choice(paths)
@@ -43,6 +44,9 @@ def make_spec(ops):
         op = {"responses": {"200": {"description": "ok"}}}
         if oid is not None:
             op["operationId"] = oid
+        # a parameter reference that cannot be resolved is ignored by the generator: the operation stays selectable
+        if (len(path) + len(m) + len(oid or "")) % 5 == 0:
+            op["parameters"] = [{"$ref": "#/components/parameters/Missing"}]
         (hooks if wh else paths).setdefault(path, {})[m] = op
     spec = {"openapi": "3.1.0", "info": {"title": "t", "version": "1"}, "paths": paths}
     if hooks:
